@@ -563,6 +563,12 @@ RULES = {
     "R3s": Rule("R3s", "(X) - (Y) -> Sub::sub((X), (Y))", "( $$x ) - ( $$y )", "Sub :: sub ( ( $$x ) , ( $$y ) )"),
     "R3d": Rule("R3d", "&X.data - Y -> Sub::sub(&X.data, Y)", "& $x . data - $y", "Sub :: sub ( & $x . data , $y )"),
     "R3p": Rule("R3p", "&X * &Y -> Mul::mul(&X, &Y)", "& $x * & $y", "Mul :: mul ( & $x , & $y )"),
+    # UFCS spellings of specific operator expressions over references (Rust's definition of the operators)
+    "R3n1": Rule("R3n1", "self + (other - m) -> Add::add(self, Sub::sub(other, m))", "self + ( other - m )", "Add :: add ( self , Sub :: sub ( other , m ) )"),
+    "R3n2": Rule("R3n2", "self - self.mod_floor(other) -> Sub::sub(self, self.mod_floor(other))", "self - self . mod_floor ( other )", "Sub :: sub ( self , self . mod_floor ( other ) )"),
+    "R3n3": Rule("R3n3", "self / self.gcd(other) * other -> Mul::mul(Div::div(self, self.gcd(other)), other)", "self / self . gcd ( other ) * other", "Mul :: mul ( Div :: div ( self , self . gcd ( other ) ) , other )"),
+    "R3n4": Rule("R3n4", "self / &gcd * other -> Mul::mul(Div::div(self, &gcd), other)", "self / & gcd * other", "Mul :: mul ( Div :: div ( self , & gcd ) , other )"),
+    "R3n5": Rule("R3n5", "(self % other) -> (Rem::rem(self, other))", "( self % other )", "( Rem :: rem ( self , other ) )"),
     "R3m": Rule("R3m", "(X) * (Y) -> Mul::mul((X), (Y))", "( $$x ) * ( $$y )", "Mul :: mul ( ( $$x ) , ( $$y ) )"),
     # reversed mutable iteration over a Vec/slice -> index loop counting down (definition of Rev<IterMut>)
     "R10r": Rule("R10r", "for d in V.iter_mut().rev() { BODY } -> { let mut i__ = V.len(); while i__ > 0 { i__ -= 1; let d = &mut V.as_mut_slice()[i__]; BODY } }",
@@ -602,6 +608,8 @@ RULES = {
                 "self . sign . cmp ( & other . sign )", "sign_cmp ( & self . sign , & other . sign )"),
     "R2b": Rule("R2b", "Some((&x, y)) => { BODY } -> Some((x_r__, y)) => { let x = *x_r__; BODY }",
                 "Some ( ( & $x , $y ) ) => { $$body }", "Some ( ( x_r__ , $y ) ) => { let $x = * x_r__ ; $$body }"),
+    # num_integer::Integer::is_even on a primitive (external crate) -> helper with the arithmetic definition
+    "R15e": Rule("R15e", "n.is_even() (n: u32) -> __u32_is_even(n)", "n . is_even ( )", "__u32_is_even ( n )"),
     "R4b": Rule("R4b", "for (a, &b) in I { S } -> for (a, b_r__) in I { let b = *b_r__; S }",
                 "for ( $a , & $b ) in $$i { $$s }",
                 "for ( $a , b_r__ ) in $$i { let $b = * b_r__ ; $$s }"),
